@@ -184,3 +184,23 @@ package types
 //@   inline
 //@ func validateDecisionLimit(i)
 //@   inline
+
+// ---------------------------------------------------------------- signers (C13): the transaction must be signed by exactly the party the operation belongs to
+
+//@ func MsgUndPurchaseOrder.GetSigners(msg) (signers)
+//@   props C13
+//@   requires validBech32(msg.Purchaser)
+//@   nopanic
+//@   ensures len(signers) == 1 && signers[0] == addrOf(msg.Purchaser)
+
+//@ func MsgProcessUndPurchaseOrder.GetSigners(msg) (signers)
+//@   props C13
+//@   requires validBech32(msg.Signer)
+//@   nopanic
+//@   ensures len(signers) == 1 && signers[0] == addrOf(msg.Signer)
+
+//@ func MsgWhitelistAddress.GetSigners(msg) (signers)
+//@   props C13
+//@   requires validBech32(msg.Signer)
+//@   nopanic
+//@   ensures len(signers) == 1 && signers[0] == addrOf(msg.Signer)
